@@ -150,7 +150,7 @@ func (e *Executor) RunTask(ctx context.Context, call *Call) error {
 	release := e.acquireConcurrencyLimit()
 	defer release()
 
-	return e.startExecution(ctx, t, func(ctx context.Context) error {
+	err = e.startExecution(ctx, t, func(ctx context.Context) error {
 		e.Logger.VerboseErrf(logger.Magenta, "task: %q started\n", call.Task)
 		if err := e.runDeps(ctx, t); err != nil {
 			return err
@@ -239,6 +239,12 @@ func (e *Executor) RunTask(ctx context.Context, call *Call) error {
 		e.Logger.VerboseErrf(logger.Magenta, "task: %q finished\n", call.Task)
 		return nil
 	})
+	// A command failure that reaches a directly called task through its
+	// dependencies (or through a shared execution) is a task run error too
+	if _, isExitError := interp.IsExitStatus(err); isExitError && !call.Indirect {
+		return &errors.TaskRunError{TaskName: t.Task, Err: err}
+	}
+	return err
 }
 
 func (e *Executor) mkdir(t *ast.Task) error {
